@@ -329,10 +329,12 @@ class Term:
         elif isinstance(other, type(self)):
             if len(other.components) == 1 and isinstance(other.components[0].name, (int, float)):
                 raise TypeError("Interaction with numeric does not make sense.")
-            return Term(*self.components, *other.components)
+            return Term(*deepcopy(self.components), *deepcopy(other.components))
         elif isinstance(other, Model):
             products = product([self], other.common_terms)
-            iterms = [Term(*p[0].components, *p[1].components) for p in products]
+            iterms = [
+                Term(*deepcopy(p[0].components), *deepcopy(p[1].components)) for p in products
+            ]
             return Model(*iterms)
         else:  # pragma: no cover
             return NotImplemented
@@ -352,10 +354,12 @@ class Term:
         elif isinstance(other, type(self)):
             if len(other.components) == 1 and isinstance(other.components[0].name, (int, float)):
                 raise TypeError("Interaction with numbers does not make sense.")
-            return Model(self, Term(*self.components, *other.components))
+            return Model(self, Term(*deepcopy(self.components), *deepcopy(other.components)))
         elif isinstance(other, Model):
             products = product([self], other.common_terms)
-            iterms = [Term(*p[0].components, *p[1].components) for p in products]
+            iterms = [
+                Term(*deepcopy(p[0].components), *deepcopy(p[1].components)) for p in products
+            ]
             return self + Model(*iterms)
         else:
             return NotImplemented
@@ -380,7 +384,9 @@ class Term:
             intercepts = [
                 GroupSpecificTerm(Intercept(), p[1]) for p in product([self], other.common_terms)
             ]
-            slopes = [GroupSpecificTerm(p[0], p[1]) for p in product([self], other.common_terms)]
+            slopes = [
+                GroupSpecificTerm(deepcopy(p[0]), p[1]) for p in product([self], other.common_terms)
+            ]
             return Model(*intercepts, *slopes)
         else:  # pragma: no cover
             return NotImplemented
@@ -921,11 +927,15 @@ class Model:
         """
         if isinstance(other, type(self)):
             products = product(self.common_terms, other.common_terms)
-            iterms = [Term(*p[0].components, *p[1].components) for p in products]
+            iterms = [
+                Term(*deepcopy(p[0].components), *deepcopy(p[1].components)) for p in products
+            ]
             return Model(*iterms)
         elif isinstance(other, Term):
             products = product(self.common_terms, [other])
-            iterms = [Term(*p[0].components, *p[1].components) for p in products]
+            iterms = [
+                Term(*deepcopy(p[0].components), *deepcopy(p[1].components)) for p in products
+            ]
             return Model(*iterms)
         else:  # pragma: no cover
             return NotImplemented
@@ -950,14 +960,18 @@ class Model:
                     raise TypeError("Interaction with numeric does not make sense.")
             products = product(self.common_terms, other.common_terms)
             terms = self.common_terms + other.common_terms
-            iterms = [Term(*p[0].components, *p[1].components) for p in products]
+            iterms = [
+                Term(*deepcopy(p[0].components), *deepcopy(p[1].components)) for p in products
+            ]
             return Model(*terms) + Model(*iterms)
         elif isinstance(other, Term):
             if len(other.components) == 1 and isinstance(other.components[0].name, (int, float)):
                 raise TypeError("Interaction with numeric does not make sense.")
             products = product(self.common_terms, [other])
             terms = self.common_terms + [other]
-            iterms = [Term(*p[0].components, *p[1].components) for p in products]
+            iterms = [
+                Term(*deepcopy(p[0].components), *deepcopy(p[1].components)) for p in products
+            ]
             return Model(*terms) + Model(*iterms)
         else:  # pragma: no cover
             return NotImplemented
@@ -980,7 +994,10 @@ class Model:
                 comb = [
                     list(p) for i in range(2, value + 1) for p in combinations(self.common_terms, i)
                 ]
-            iterms = [Term(*[comp for term in terms for comp in term.components]) for terms in comb]
+            iterms = [
+                Term(*deepcopy([comp for term in terms for comp in term.components]))
+                for terms in comb
+            ]
             return self + Model(*iterms)
         else:
             raise ValueError("Power must be a positive integer.")
@@ -997,10 +1014,12 @@ class Model:
             A new instance of the model with all the terms computed.
         """
         if isinstance(other, Term):
-            return self.add_term(Term(*self.common_components + other.components))
+            return self.add_term(
+                Term(*deepcopy(self.common_components), *deepcopy(other.components))
+            )
         elif isinstance(other, Model):
             iterms = [
-                Term(*self.common_components, *term.components)
+                Term(*deepcopy(self.common_components), *deepcopy(term.components))
                 for term in other.common_terms
                 if isinstance(term, Term)
             ]
@@ -1045,7 +1064,7 @@ class Model:
             return Model(*terms)
         elif isinstance(other, type(self)):
             products = product(self.common_terms, other.common_terms)
-            terms = [GroupSpecificTerm(p[0], p[1]) for p in products]
+            terms = [GroupSpecificTerm(deepcopy(p[0]), p[1]) for p in products]
             return Model(*terms)
         else:  # pragma: no cover
             return NotImplemented
